@@ -15,8 +15,10 @@ def run(ctx):
     progress.rule_blocking(ctx)
     progress.rule_selector_freshness(ctx)
     progress.rule_local_selector_retired(ctx)
+    progress.rule_state_machine(ctx)
     accept.rule_stage_layering(ctx, 'credulous')
     grounded.rule_grounded_propagation(ctx)
+    cli.rule_encoder_selection(ctx)  # the CLI hands each solver the encoder of its base semantics, for every --encoding value
     ctx.assume("rustc's MIR and resolved callees; the tables stated in the property (DC-PR through the complete solver)")
     return (
         "F2/F5 on the stable solver (no stable extension in a component => NO for every credulous query, by the constant pair passed by the entry "
